@@ -21,7 +21,13 @@ package core
 // so none of its slice and index expressions can go out of range.
 //@ func IndexStartOptimize
 //@   property C06 C02
+//@   option prelude=opt
 //@   callsite NewListFromStrings requires nodup: forall p, q :: 0 <= p && p < q && q < len(arg0) ==> arg0[p] != arg0[q]
+// the values handed to the lookup come from the very filter that the rewrite removes (the first id filter,
+// or else the first label filter), so no filter is dropped without having been applied
+//@   callsite dedupStringSlice requires fromfilter: (len(hasIDIdx) > 0 && (forall p :: 0 <= p && p < len(arg0) ==> (dyn(pipe[hasIDIdx[0]].Statement, "*gripql.GraphStatement_HasId") && ptr(pipe[hasIDIdx[0]].Statement, "*gripql.GraphStatement_HasId").HasId != nil && (exists q :: 0 <= q && q < len(ptr(pipe[hasIDIdx[0]].Statement, "*gripql.GraphStatement_HasId").HasId.Values) && arg0[p] == pbstr(ptr(pipe[hasIDIdx[0]].Statement, "*gripql.GraphStatement_HasId").HasId.Values[q]))) || (dyn(pipe[hasIDIdx[0]].Statement, "*gripql.GraphStatement_Has") && (exists q :: 0 <= q && q < hvlen(ptr(pipe[hasIDIdx[0]].Statement, "*gripql.GraphStatement_Has")) && arg0[p] == hvstr(ptr(pipe[hasIDIdx[0]].Statement, "*gripql.GraphStatement_Has"), q))))) ||
+//@       (len(hasLabelIdx) > 0 && (forall p :: 0 <= p && p < len(arg0) ==> (dyn(pipe[hasLabelIdx[0]].Statement, "*gripql.GraphStatement_HasLabel") && ptr(pipe[hasLabelIdx[0]].Statement, "*gripql.GraphStatement_HasLabel").HasLabel != nil && (exists q :: 0 <= q && q < len(ptr(pipe[hasLabelIdx[0]].Statement, "*gripql.GraphStatement_HasLabel").HasLabel.Values) && arg0[p] == pbstr(ptr(pipe[hasLabelIdx[0]].Statement, "*gripql.GraphStatement_HasLabel").HasLabel.Values[q]))) || (dyn(pipe[hasLabelIdx[0]].Statement, "*gripql.GraphStatement_Has") && (exists q :: 0 <= q && q < hvlen(ptr(pipe[hasLabelIdx[0]].Statement, "*gripql.GraphStatement_Has")) && arg0[p] == hvstr(ptr(pipe[hasLabelIdx[0]].Statement, "*gripql.GraphStatement_Has"), q)))))
+//@   loop 3 invariant excl: !(idOpt && labelOpt) && rangeindex < len(pipe)
 //@   loop 3 invariant head: soff(optimized) == 0 && sref(optimized) >= 0 && sref(optimized) < alloc && (labelOpt ==> len(optimized) >= 1 && optimized[0] != nil && optimized[0] < alloc &&
 //@       dyn(optimized[0].Statement, "*gripql.GraphStatement_LookupVertsIndex") &&
 //@       (forall p, q :: 0 <= p && p < q && q < len(ptr(optimized[0].Statement, "*gripql.GraphStatement_LookupVertsIndex").Labels) ==>
@@ -223,6 +229,11 @@ package core
 //@   loop 1 invariant seenonly: forall x:Str :: has(seen, x) ==> (exists p :: 0 <= p && p < j && s[p] == x)
 //@   ensures shape: len(result) <= len(s) && len(result) >= 0 && sref(result) == sref(s) && soff(result) == soff(s)
 //@   ensures nodup: forall p, q :: 0 <= p && p < q && q < len(result) ==> result[p] != result[q]
+//@   loop 1 invariant kept: forall q :: 0 <= q && q <= rangeindex ==> (exists p :: 0 <= p && p < j && s[p] == old(s[q]))
+//@   loop 1 invariant from: forall p :: 0 <= p && p < j ==> (exists q :: 0 <= q && q <= rangeindex && s[p] == old(s[q]))
+//@   loop 1 invariant rest: forall q :: rangeindex < q && q < len(s) ==> s[q] == old(s[q])
+//@   ensures sameset: (forall q :: 0 <= q && q < len(s) ==> (exists p :: 0 <= p && p < len(result) && result[p] == old(s[q]))) &&
+//@       (forall p :: 0 <= p && p < len(result) ==> (exists q :: 0 <= q && q < len(s) && result[p] == old(s[q])))
 
 //@ func (*HasID).Process$1
 //@   property C01 C06
@@ -395,3 +406,14 @@ package core
 //@   loop 3 invariant sent: wr(out) == rangeindex + 1 && !closed(out) && rd(src) == len(src) && (size > 0 ==> rangeindex < size)
 //@   ensures drained: rd(src) == len(src)
 //@   ensures limit: size > 0 ==> wr(out) <= size
+
+// What IndexStartOptimize may assume of extractHasVals beyond its verified contract: it is
+// a deterministic function of the statement it is given, so the list it returns can be
+// named (hvlen, hvstr). ASSUMED naming; its panic-freedom is proved above.
+//@ extern github.com/bmeg/grip/engine/core.extractHasVals@engine/core
+//@   params h
+//@   option prelude=opt,json
+//@   pure
+//@   fresh
+//@   ensures shape: soff(result) == 0 && len(result) == hvlen(h)
+//@   ensures elems: forall j :: 0 <= j && j < len(result) ==> result[j] == hvstr(h, j)
